@@ -251,11 +251,23 @@ def correspond(rng, tier, driver):
 PLANTS = {
     "syntax": ["x = ("],
     "tifa": ["print(zz_undefined_name)"],
+    # TIFA issues located through an EXPLICIT node (locate(node)), not the visitor's current node
+    "tifa_iter": ["for zz_i in 5:", "    pass"],
+    "tifa_iter_empty": ["zz_l = []", "for zz_i in zz_l:", "    pass"],
+    "tifa_append": ["zz_n = 5", "zz_n.append(1)"],
+    "tifa_iter_same": ["zz_q = [1]", "for zz_q in zz_q:", "    pass"],
     "runtime": ["zz_q = 1 // 0"],
     "runtime_fn": ["def zz_f():", "    return 1 // 0", "zz_f()"],
     # multi-step: the section only DEFINES the function; the instructor then calls it and it fails there
     "runtime_call": ["def zz_g(d):", "    return 1 // d"],
 }
+
+
+# which line of the planted snippet carries the diagnostic (0 = its first line), and for TIFA kinds which issue
+PLANT_LINE_DELTA = {"runtime_fn": 1, "runtime_call": 1, "tifa_iter_empty": 1, "tifa_append": 1, "tifa_iter_same": 1}
+TIFA_PLANT_LABEL = {"tifa": "initialization_problem", "tifa_iter": "iterating_over_non_list",
+                    "tifa_iter_empty": "iterating_over_empty_list", "tifa_append": "append_to_non_list",
+                    "tifa_iter_same": "iteration_problem"}
 
 
 def gen_planted(rng):
@@ -285,11 +297,15 @@ def gen_planted(rng):
         if j > 0:
             lines.append(MARKERS[pattern](j))
         if j == k:
-            planted_line = len(lines) + pos + 1 + (1 if kind in ("runtime_fn", "runtime_call") else 0)
+            planted_line = len(lines) + pos + 1 + PLANT_LINE_DELTA.get(kind, 0)
         lines += body
     text = "\n".join(lines) + ("\n" if rng.random() < 0.8 else "")
-    return {"text": text, "pattern": pattern, "k": k, "kind": kind, "line": planted_line,
-            "independent": rng.random() < 0.6}
+    independent = rng.random() < 0.6
+    out = {"text": text, "pattern": pattern, "k": k, "kind": kind, "line": planted_line, "independent": independent}
+    if independent:
+        start = sum(len(c) for c in chunks[:k]) + k          # lines before section k's body incl. its marker line
+        out["section_lines"] = (start, start + len(chunks[k]) + 1)
+    return out
 
 
 def check_planted(p):
@@ -318,15 +334,25 @@ def check_planted(p):
             if got[:1] != [p["line"]]:
                 return ({"tool": "syntax", "line": "not-whole-file", "mode": mode(p)},
                         "syntax error reported at %r, whole-file line %d" % (got, p["line"]))
-        elif kind == "tifa":
+        elif kind in TIFA_PLANT_LABEL:
             if not verify():
                 return None
             t = tifa_analysis()
-            got = [i.location.line for i in t.issues.get("initialization_problem", [])
-                   if i.fields.get("name") == "zz_undefined_name"]
+            label = TIFA_PLANT_LABEL[kind]
+            got = [i.location.line for i in t.issues.get(label, [])
+                   if kind != "tifa" or i.fields.get("name") == "zz_undefined_name"]
             if got[:1] != [p["line"]]:
-                return ({"tool": "tifa", "line": "not-whole-file", "mode": mode(p)},
-                        "TIFA issue reported at %r, whole-file line %d" % (got, p["line"]))
+                return ({"tool": "tifa", "line": "not-whole-file", "mode": mode(p), "issue": label},
+                        "TIFA %s reported at %r, whole-file line %d" % (label, got, p["line"]))
+            # every TIFA issue of this section lies inside the section's whole-file line range
+            lo, hi = p.get("section_lines", (None, None))
+            if lo is not None:
+                for lab, iss in t.issues.items():
+                    for i in iss:
+                        ln = getattr(i.location, "line", None)
+                        if lab != "unused_variable" and isinstance(ln, int) and not (lo <= ln <= hi):
+                            return ({"tool": "tifa", "line": "outside-section", "mode": mode(p)},
+                                    "TIFA %s at line %r, section %d spans whole-file lines %d..%d" % (lab, ln, p["k"], lo, hi))
         else:
             if not verify():
                 return None
@@ -397,6 +423,18 @@ def check_structure(text, pattern, independent, extra_next):
         stop_sections()
         if MAIN_REPORT.submission.main_code != text:
             return ({"restore": "main-code"}, "main code not restored after stop_sections")
+        # restoration by the resolver's hook, after ANY number of next_section calls - none included (the
+        # instructor separated, looked at the prologue only and resolved)
+        for nexts in (0, 1, len(spans) + 1):
+            clear_report()
+            contextualize_report(text)
+            separate_into_sections(pattern=pattern, independent=independent)
+            for _ in range(nexts):
+                next_section()
+            simple.resolve()
+            if MAIN_REPORT.submission.main_code != text:
+                return ({"restore": "main-code", "by": "resolver-hook"},
+                        "main code not restored by resolve() after separate_into_sections + %d next_section call(s)" % nexts)
     except Exception as e:
         return ({"raises": type(e).__name__}, "%s: %s" % (type(e).__name__, e))
     return None
